@@ -576,6 +576,10 @@ func decodeQuoted(b []byte) string {
 // blockStringValue implements BlockStringValue(rawValue) of the spec and the
 // `\"""` escape.
 func blockStringValue(raw []byte) string {
+	return strings.ReplaceAll(blockStringValueNoUnescape(raw), `\"""`, `"""`)
+}
+
+func blockStringValueNoUnescape(raw []byte) string {
 	var lines []string
 	cur := 0
 	for i := 0; i < len(raw); i++ {
@@ -623,5 +627,5 @@ func blockStringValue(raw []byte) string {
 	for len(lines) > 0 && indentOf(lines[len(lines)-1]) == len(lines[len(lines)-1]) {
 		lines = lines[:len(lines)-1]
 	}
-	return strings.ReplaceAll(strings.Join(lines, "\n"), `\"""`, `"""`)
+	return strings.Join(lines, "\n")
 }
